@@ -1407,6 +1407,63 @@ def selection_table(ctx, m, depth=0):
 
 
 
+@rule('C03-OPARG', 'every implementation of the reduce terminal hands the user\'s operator itself to the kernel (or to the reduce it delegates to)')
+def c03_oparg(ctx):
+    """The kernels combine every surviving element exactly once with the operator they are given (C03-THREAD, C03-OUTER); the
+    provided methods build their operators from `reduce` (C03-WRAP).  In between sits each type's `reduce(self, reduce)`: it must
+    pass `reduce` on as it is.  An operator *derived* from it there - an Option-lifted or re-bracketing closure around the user's
+    operator - is a different operator, and no kernel rule looks at it (`|acc, x| match x { Some(x) => acc.map(|a| reduce(a, x)),
+    None => acc }` drops the right operand whenever the accumulator is None)."""
+    out = RuleOut('C03-OPARG')
+    F = ctx.facts
+    S = ctx.slots
+    n = 0
+    for tn in sorted(set(S.terminals) | set(S.inherent_terminals)):
+        b = F.bodies[tn]
+        if (b.d.get('method') or b.name.rsplit('::', 1)[-1]) != 'reduce':
+            continue
+        fb = b.fn_bounds()
+        ops = [b.local_name(l) for l in b.arg_locals() if local_type_param(b, l) in fb and len(fb[local_type_param(b, l)].get('by_ref', [])) == 2]
+        if not ops:
+            continue
+        op = ('param', ops[0])
+        r = ctx.run0(tn)        # the calls this body makes itself (nothing inlined)
+        direct, derived = [], []
+
+        def captures_op(x, depth=0):
+            if x is None or depth > 6:
+                return False
+            while x[0] in ('ref', 'mut'):
+                x = x[1]
+                if x is None:
+                    return False
+            if x == op:
+                return True
+            if x[0] == 'closure':
+                return any(captures_op(c_, depth + 1) for c_ in x[2])
+            return False
+        for bb, c in r.call_sites():
+            for a in c['args']:
+                x = a
+                while x is not None and x[0] in ('ref', 'mut'):
+                    x = x[1]
+                if x == op:
+                    direct.append((bb, c))
+                elif x is not None and x[0] == 'closure' and captures_op(x):
+                    derived.append((bb, c, x))
+        n += 1
+        key = 'C03-OPARG/' + key_of(b)
+        ok = bool(direct) and not derived
+        out.inst(key, ok, '%d call(s) receive the operator itself, %d a closure built around it' % (len(direct), len(derived)),
+                 sample={'terminal': key_of(b), 'operator': ops[0], 'passed_on_by': [res(c['t']) for _, c in direct][:3]})
+        for (bb, c, x) in derived[:1]:
+            out.fail(key, '%s hands %s a closure built around the user\'s operator `%s` (%s) instead of the operator itself: the kernels then combine the elements with a different operator, which nothing checks' % (key_of(b), res(c['t']), ops[0], t_str(x)[:80]), b.where(c['line']))
+        if not derived and not direct:
+            out.fail(key, '%s never hands its operator `%s` to a kernel or to another reduce' % (key_of(b), ops[0]), b.where())
+    out.floor('reduce_terminals', n, 4 if not ctx.fixture else 0)
+    return out
+
+
 @rule('C03-WRAP', 'fold/sum/min/max/min_by*/max_by* are thin wrappers over reduce with the right operator')
 def c03_wrap(ctx):
     from .optcase import case_returns_rerun, apply_term
